@@ -38,6 +38,7 @@ in presence.py only by the owner-checked unregister routines.
 Sweep: C17.2 _safe_create claims success only for a node it created or one its own session owns (also when the answer travels through a local), answers plain True / False, and the wait callback retries only when the other node is gone.
 Fifth round: C17.1 the zkutils routines the service writes through create a node only with the ephemeral flag of their caller (zkutils.update creates nothing); C17.5 the host comparison is recognised on any local bound to a ZooKeeper read.
 Sixth round: C17.1 the nodes of a container are registered through _create_ephemeral_with_retry only; C17.2 zkutils.create lets NodeExistsError escape.
+Seventh round: C17.2 the node _safe_delete removes is the one whose owner it read - nothing else is deleted on its way; C17.5 /scheduled/<instance> is deleted only by _unschedule, under its own conditions.
 Does NOT decide interleavings of two sessions with expiry (schedules).
 """
 
